@@ -99,10 +99,11 @@ def _auth_blobs(f):
 
 
 def classify(case, c_out):
+    """F-C09-1b: the input has irregular padding and the implementation *accepted* it (a crash is never known)"""
     f = case.split()
-    if f[0] == 'd1':
+    if f[0] == 'd1' and c_out.startswith('D0 '):
         return None if pad_regular(R.unhx(f[1])) else 'b64_irregular_padding'
-    if f[0] == 'a1':
+    if f[0] == 'a1' and c_out.startswith('A '):
         return None if all(pad_regular(b) for b in _auth_blobs(f)) else 'b64_irregular_padding'
     return None
 
